@@ -63,7 +63,7 @@ def run_model(sx_lines, fuel=FUEL, timeout=1800):
         with open(p, "w") as f:
             for s in sx_lines:
                 f.write("run %d %s\n" % (fuel, s))
-        rc, out = vlib.sh("%s < %s" % (exe, p), timeout=timeout)
+        rc, out = vlib.sh("ulimit -s 1000000 2>/dev/null; %s < %s" % (exe, p), timeout=timeout)
         ls = out.splitlines()
         if rc != 0 or len(ls) != len(sx_lines):
             raise RuntimeError("lang model driver failed rc=%d (%d/%d lines): %s" % (rc, len(ls), len(sx_lines), out[-400:]))
